@@ -61,7 +61,7 @@ def insertNat (x : Nat) : List Nat → List Nat
 
 /-- Heights probed by the observation: start − 1, every height with a successful transaction, current, current + 1. -/
 def probeHeights (h0 cur : Nat) (heights : List Nat) : List Nat :=
-  insertNat (cur + 1) (insertNat cur (insertNat (h0 - 1) heights))
+  insertNat 0 (insertNat (cur + 1) (insertNat cur (insertNat (h0 - 1) heights)))
 
 def parseCoins (a : Args) : List (String × Nat) :=
   match a.optStr "funds" with
